@@ -102,11 +102,6 @@ func Copy(ctx context.Context, srcRoot, src, dstRoot, dst string, opts ...Opt) e
 		modeSet = &ms
 	}
 
-	dst, err := fs.RootPath(dstRoot, filepath.Clean(dst))
-	if err != nil {
-		return err
-	}
-
 	c, err := newCopier(dstRoot, ci.Chown, ci.Utime, ci.Mode, modeSet, ci.XAttrErrorHandler, ci.IncludePatterns, ci.ExcludePatterns, ci.AlwaysReplaceExistingDestPaths, ci.ChangeFunc)
 	if err != nil {
 		return err
@@ -126,6 +121,12 @@ func Copy(ctx context.Context, srcRoot, src, dstRoot, dst string, opts ...Opt) e
 
 	for _, src := range srcs {
 		srcFollowed, err := rootPath(srcRoot, src, ci.FollowLinks)
+		if err != nil {
+			return err
+		}
+		// resolve dst for every source: an earlier source may have put a
+		// symlink there, which must not be followed out of dstRoot
+		dst, err := fs.RootPath(dstRoot, filepath.Clean(dst))
 		if err != nil {
 			return err
 		}
